@@ -58,6 +58,8 @@ pub(crate) struct Speaker {
     pub mute: bool,
     /// how many times each key was announced to us on this connection
     pub reach_count: BTreeMap<MirrorKey, u32>,
+    /// how an NLRI identifies a route in the mirror (labels are not part of the identity)
+    pub nlri_key: fn(&packet::Nlri) -> String,
     consumed: u64,
 }
 
@@ -203,6 +205,7 @@ impl Speaker {
             auto_ka: true,
             mute: false,
             reach_count: BTreeMap::new(),
+            nlri_key: |n| format!("{:?}", n),
             consumed: 0,
         }
     }
@@ -388,14 +391,14 @@ impl Speaker {
                     match u {
                         bgp::Update::Reach { family, entries, nexthop, attr } => {
                             for e in entries {
-                                let k = (fam_key(family), format!("{:?}", e.nlri), e.path_id);
+                                let k = (fam_key(family), (self.nlri_key)(&e.nlri), e.path_id);
                                 *self.reach_count.entry(k.clone()).or_insert(0) += 1;
                                 self.mirror.insert(k, ((*attr).clone(), nexthop));
                             }
                         }
                         bgp::Update::Unreach { family, entries } => {
                             for e in entries {
-                                self.mirror.remove(&(fam_key(family), format!("{:?}", e.nlri), e.path_id));
+                                self.mirror.remove(&(fam_key(family), (self.nlri_key)(&e.nlri), e.path_id));
                             }
                         }
                         bgp::Update::EndOfRib(f) => {
